@@ -282,7 +282,7 @@ func init() {
 		// structured product: rcode ; rrtype ; value
 		rcodes := []string{"NOERROR", "noerror", "SERVFAIL", "NXDOMAIN", "REFUSED", "BADCODE", ""}
 		rrtypes := []string{"A", "AAAA", "CNAME", "MX", "PTR", "TXT", "HTTPS", "SVCB", "SRV", "NS", "none", "reserved", "XYZ", "", "a", "ptr", "https"}
-		vtoks := []string{"", "0", "10", "65535", "65536", "-1", "1.2.3.4", "::1", "::ffff:1.2.3.4", "example.org", "example.org.", ".", "a-", "-a", "alpn=h2", "k=v=w", "hello world", strings.Repeat("x", 64), "example.org..", "a..", ".."}
+		vtoks := []string{"", "0", "10", "65535", "65536", "-1", "1.2.3.4", "::1", "::ffff:1.2.3.4", "example.org", "example.org.", ".", "a-", "-a", "alpn=h2", "k=v=w", "alpn=", "k=\"", "k=\"v\"", "hello world", strings.Repeat("x", 64), "example.org..", "a..", ".."}
 		vn := 3
 		if c.Thorough() {
 			vn = 4
